@@ -57,10 +57,14 @@ class CallMixin:
         if not isinstance(it, (AList, SliceView)):
             return None
         i = z3.Int(fresh_name("qa"))
+        # a slice is quantified over the absolute index of its base list (bare-variable reads `a[j]`: offset-free patterns)
+        base, lo = it, 0
+        while isinstance(base, SliceView):
+            base, lo = base.base, lo + base.lo
         saved = dict(fr.env)
         self.nofork += 1
         try:
-            self.assign(g.generators[0].target, it.get(i), fr)
+            self.assign(g.generators[0].target, base.get(i), fr)
             body = self.ev(g.elt, fr)
             if isinstance(body, bool):
                 body = z3.BoolVal(body)
@@ -70,7 +74,7 @@ class CallMixin:
             self.nofork -= 1
             fr.env.clear()
             fr.env.update(saved)
-        rng = z3.And(0 <= i, i < it.n)
+        rng = z3.And(lo <= i, i < lo + it.n)
         return z3.Exists([i], z3.And(rng, body)) if name == "any" else z3.ForAll([i], z3.Implies(rng, body))
 
     def call(self, f, args, kwargs=None, site=None):
@@ -433,6 +437,10 @@ class CallMixin:
             return isinstance(v, py)
         if isinstance(c, ExcClass):
             return False
+        if self.theory is not None and hasattr(self.theory, "isinstance_other"):
+            r = self.theory.isinstance_other(self, v, c)
+            if r is not None:
+                return r
         raise OutsideSubset(f"isinstance against {c!r}")
 
     def length(self, v):
